@@ -31,6 +31,8 @@ var importMap = map[string]string{
 	"sync/atomic":                            shimBase + "vatomic",
 	"github.com/iotaledger/iota.go/curl/bct": shimBase + "vbct",
 	"github.com/iotaledger/iota.go/curl":     shimBase + "vcurl",
+	// a PoW that hashes through this module's own batched Curl gets the same instrumented object
+	"github.com/wollac/iota-crypto-demo/pkg/curl": shimBase + "vpcurl",
 }
 
 type unsupported string
@@ -72,6 +74,77 @@ type rewriter struct {
 	usedAtomicDecl bool
 	hasAtomic      bool // the file imports sync/atomic under the name "atomic"
 	splice         map[*ast.BlockStmt]bool
+	chanNames      map[string]bool // identifiers (variables, parameters, fields) declared with a channel type in this file
+}
+
+// collectChanNames finds the names bound to channel types (syntactically: declared with a chan type or from make(chan)).
+func collectChanNames(f *ast.File) map[string]bool {
+	names := map[string]bool{}
+	isMakeChan := func(e ast.Expr) bool {
+		c, ok := e.(*ast.CallExpr)
+		if !ok || len(c.Args) == 0 {
+			return false
+		}
+		id, ok := c.Fun.(*ast.Ident)
+		if !ok || id.Name != "make" {
+			return false
+		}
+		_, ok = c.Args[0].(*ast.ChanType)
+		return ok
+	}
+	add := func(e ast.Expr) {
+		switch v := e.(type) {
+		case *ast.Ident:
+			names[v.Name] = true
+		case *ast.SelectorExpr:
+			names[v.Sel.Name] = true
+		}
+	}
+	ast.Inspect(f, func(n ast.Node) bool {
+		switch v := n.(type) {
+		case *ast.AssignStmt:
+			if len(v.Lhs) == len(v.Rhs) {
+				for i := range v.Rhs {
+					if isMakeChan(v.Rhs[i]) || isDoneCall(v.Rhs[i]) {
+						add(v.Lhs[i])
+					}
+				}
+			}
+		case *ast.ValueSpec:
+			if _, ok := v.Type.(*ast.ChanType); ok {
+				for _, n := range v.Names {
+					names[n.Name] = true
+				}
+			}
+			if len(v.Names) == len(v.Values) {
+				for i := range v.Values {
+					if isMakeChan(v.Values[i]) || isDoneCall(v.Values[i]) {
+						names[v.Names[i].Name] = true
+					}
+				}
+			}
+		case *ast.Field:
+			if _, ok := v.Type.(*ast.ChanType); ok {
+				for _, n := range v.Names {
+					names[n.Name] = true
+				}
+			}
+		}
+		return true
+	})
+	return names
+}
+
+func (r *rewriter) isChanExpr(e ast.Expr) bool {
+	switch v := e.(type) {
+	case *ast.Ident:
+		return r.chanNames[v.Name]
+	case *ast.SelectorExpr:
+		return r.chanNames[v.Sel.Name]
+	case *ast.ParenExpr:
+		return r.isChanExpr(v.X)
+	}
+	return false
 }
 
 func isRecv(e ast.Expr) (ast.Expr, bool) {
@@ -85,9 +158,16 @@ func isRecv(e ast.Expr) (ast.Expr, bool) {
 	return nil, false
 }
 
-func isForeign(x ast.Expr) bool {
-	_, ok := x.(*ast.CallExpr) // e.g. ctx.Done()
-	return ok
+// isDoneCall: X.Done() with no arguments. As a statement it is sync.WaitGroup.Done; as a VALUE it can only be a
+// channel the code under test did not make (context.Context.Done) - wrapped by vchan.Foreign so that it can be stored,
+// passed on and received from like the shim channels.
+func isDoneCall(x ast.Expr) bool {
+	c, ok := x.(*ast.CallExpr)
+	if !ok || len(c.Args) != 0 {
+		return false
+	}
+	s, ok := c.Fun.(*ast.SelectorExpr)
+	return ok && s.Sel.Name == "Done"
 }
 
 // rewriteExpr rewrites expressions bottom-up.
@@ -101,9 +181,6 @@ func (r *rewriter) expr(e ast.Expr) ast.Expr {
 		return &ast.StarExpr{X: sel("vchan", chanShim(r.fset, v))}
 	case *ast.UnaryExpr:
 		if v.Op == token.ARROW {
-			if isForeign(v.X) {
-				fail("receive from a foreign channel outside select: %s", exprString(r.fset, v))
-			}
 			return method(r.expr(v.X), "Recv")
 		}
 		v.X = r.expr(v.X)
@@ -124,9 +201,14 @@ func (r *rewriter) expr(e ast.Expr) ast.Expr {
 				return method(r.expr(v.Args[0]), "Close")
 			}
 		}
+		wrap := isDoneCall(v)
 		v.Fun = r.expr(v.Fun)
 		for i := range v.Args {
 			v.Args[i] = r.expr(v.Args[i])
+		}
+		if wrap {
+			r.usedChan = true
+			return call(sel("vchan", "Foreign"), v)
 		}
 		return v
 	case *ast.FuncLit:
@@ -250,6 +332,7 @@ func (r *rewriter) stmt(s ast.Stmt) ast.Stmt {
 		r.usedChan = true
 		var cases []ast.Expr
 		var clauses []ast.Stmt
+		var pre []ast.Stmt // declarations hoisted in front of the select (value-carrying receives)
 		for i, cl := range v.Body.List {
 			cc := cl.(*ast.CommClause)
 			switch comm := cc.Comm.(type) {
@@ -260,26 +343,57 @@ func (r *rewriter) stmt(s ast.Stmt) ast.Stmt {
 				if !ok {
 					fail("select case %s", exprString(r.fset, comm))
 				}
-				if isForeign(x) {
-					cases = append(cases, call(sel("vchan", "ForeignRecv"), r.expr(x)))
-				} else {
-					cases = append(cases, call(sel("vchan", "RecvFrom"), r.expr(x)))
-				}
+				cases = append(cases, call(sel("vchan", "RecvFrom"), r.expr(x)))
 			case *ast.SendStmt:
 				cases = append(cases, call(sel("vchan", "SendTo"), r.expr(comm.Chan), r.expr(comm.Value)))
+			case *ast.AssignStmt:
+				// case v := <-ch / case v, ok := <-ch / case v = <-ch / case v, ok = <-ch
+				if len(comm.Rhs) != 1 || len(comm.Lhs) < 1 || len(comm.Lhs) > 2 {
+					fail("select case %s", exprString(r.fset, comm))
+				}
+				x, ok := isRecv(comm.Rhs[0])
+				if !ok {
+					fail("select case %s", exprString(r.fset, comm))
+				}
+				chv := ast.NewIdent(fmt.Sprintf("verifSelCh%d", r.tmp))
+				r.tmp++
+				pre = append(pre, &ast.AssignStmt{Lhs: []ast.Expr{chv}, Tok: token.DEFINE, Rhs: []ast.Expr{r.expr(x)}})
+				args := []ast.Expr{ast.NewIdent("nil"), ast.NewIdent("nil")}
+				for k, lhs := range comm.Lhs {
+					if id, isID := lhs.(*ast.Ident); isID && id.Name == "_" {
+						continue
+					}
+					if comm.Tok == token.DEFINE {
+						id, isID := lhs.(*ast.Ident)
+						if !isID {
+							fail("select case %s", exprString(r.fset, comm))
+						}
+						var init ast.Expr = method(chv, "Zero")
+						if k == 1 {
+							init = ast.NewIdent("false")
+						}
+						pre = append(pre, &ast.AssignStmt{Lhs: []ast.Expr{ast.NewIdent(id.Name)}, Tok: token.DEFINE, Rhs: []ast.Expr{init}})
+						args[k] = &ast.UnaryExpr{Op: token.AND, X: ast.NewIdent(id.Name)}
+					} else {
+						args[k] = &ast.UnaryExpr{Op: token.AND, X: r.expr(lhs)}
+					}
+				}
+				cases = append(cases, method(chv, "RecvInto", args...))
 			default:
-				fail("select case %s (only value-less receives, sends and default are modelled)", exprString(r.fset, cc.Comm))
+				fail("select case %s", exprString(r.fset, cc.Comm))
 			}
 			cc.Body = r.stmts(cc.Body)
 			clauses = append(clauses, &ast.CaseClause{List: []ast.Expr{&ast.BasicLit{Kind: token.INT, Value: strconv.Itoa(i)}}, Body: cc.Body})
 		}
-		return &ast.SwitchStmt{Tag: call(sel("vchan", "Select"), cases...), Body: &ast.BlockStmt{List: clauses}}
+		clauses = append(clauses, &ast.CaseClause{Body: []ast.Stmt{&ast.ExprStmt{X: call(ast.NewIdent("panic"), &ast.BasicLit{Kind: token.STRING, Value: strconv.Quote("vchan: select returned no case")})}}})
+		sw := &ast.SwitchStmt{Tag: call(sel("vchan", "Select"), cases...), Body: &ast.BlockStmt{List: clauses}}
+		if len(pre) > 0 {
+			return &ast.BlockStmt{List: append(pre, sw)}
+		}
+		return sw
 	case *ast.AssignStmt:
 		if len(v.Lhs) == 2 && len(v.Rhs) == 1 {
 			if x, ok := isRecv(v.Rhs[0]); ok {
-				if isForeign(x) {
-					fail("receive from a foreign channel outside select")
-				}
 				v.Rhs[0] = method(r.expr(x), "Recv2")
 				for i := range v.Lhs {
 					v.Lhs[i] = r.expr(v.Lhs[i])
@@ -319,6 +433,11 @@ func (r *rewriter) stmt(s ast.Stmt) ast.Stmt {
 		}
 		return v
 	case *ast.ExprStmt:
+		if isDoneCall(v.X) { // a statement: sync.WaitGroup.Done, not a channel value
+			c := v.X.(*ast.CallExpr)
+			c.Fun = r.expr(c.Fun)
+			return v
+		}
 		// atomic.AddX(...) whose result is dropped: the returned value is not an observation of the thread
 		if ce, ok := v.X.(*ast.CallExpr); ok {
 			if se, ok := ce.Fun.(*ast.SelectorExpr); ok {
@@ -342,6 +461,30 @@ func (r *rewriter) stmt(s ast.Stmt) ast.Stmt {
 		r.block(v.Body)
 		return v
 	case *ast.RangeStmt:
+		if r.isChanExpr(v.X) {
+			// for v := range ch { B }  =>  for { v, ok := ch.Recv2(); if !ok { break }; B }
+			okv := ast.NewIdent(fmt.Sprintf("verifRangeOk%d", r.tmp))
+			r.tmp++
+			var head []ast.Stmt
+			recv := method(r.expr(v.X), "Recv2")
+			switch {
+			case v.Key == nil:
+				head = append(head, &ast.AssignStmt{Lhs: []ast.Expr{ast.NewIdent("_"), okv}, Tok: token.DEFINE, Rhs: []ast.Expr{recv}})
+			case v.Tok == token.DEFINE:
+				head = append(head, &ast.AssignStmt{Lhs: []ast.Expr{v.Key, okv}, Tok: token.DEFINE, Rhs: []ast.Expr{recv}})
+			default:
+				tmpv := ast.NewIdent(fmt.Sprintf("verifRangeVal%d", r.tmp))
+				r.tmp++
+				head = append(head, &ast.AssignStmt{Lhs: []ast.Expr{tmpv, okv}, Tok: token.DEFINE, Rhs: []ast.Expr{recv}},
+					&ast.AssignStmt{Lhs: []ast.Expr{r.expr(v.Key)}, Tok: token.ASSIGN, Rhs: []ast.Expr{tmpv}})
+			}
+			brk := &ast.IfStmt{Cond: &ast.UnaryExpr{Op: token.NOT, X: okv}, Body: &ast.BlockStmt{List: []ast.Stmt{&ast.BranchStmt{Tok: token.BREAK}}}}
+			r.block(v.Body)
+			// the break test comes right after the receive (before an assignment to an existing variable, Go leaves it untouched at the end)
+			body := append([]ast.Stmt{head[0], brk}, head[1:]...)
+			body = append(body, v.Body.List...)
+			return &ast.ForStmt{Body: &ast.BlockStmt{List: body}}
+		}
 		v.X = r.expr(v.X)
 		r.block(v.Body)
 		return v
@@ -364,6 +507,10 @@ func (r *rewriter) stmt(s ast.Stmt) ast.Stmt {
 		}
 		return v
 	case *ast.DeferStmt:
+		if isDoneCall(v.Call) {
+			v.Call.Fun = r.expr(v.Call.Fun)
+			return v
+		}
 		v.Call = r.expr(v.Call).(*ast.CallExpr)
 		return v
 	case *ast.LabeledStmt:
@@ -420,7 +567,7 @@ func rewriteFile(src string) (out []byte, err error) {
 		return nil, perr
 	}
 	f.Comments = nil // positions shift; comments are irrelevant for the compiled variant
-	r := &rewriter{fset: fset, splice: map[*ast.BlockStmt]bool{}}
+	r := &rewriter{fset: fset, splice: map[*ast.BlockStmt]bool{}, chanNames: collectChanNames(f)}
 	for _, is := range f.Imports {
 		if p, _ := strconv.Unquote(is.Path.Value); p == "sync/atomic" && (is.Name == nil || is.Name.Name == "atomic") {
 			r.hasAtomic = true
@@ -493,7 +640,7 @@ func main() {
 		}
 		replace[src] = dst
 	}
-	for _, pkg := range []string{"vsched", "vsync", "vatomic", "vchan", "vbct", "vcurl"} {
+	for _, pkg := range []string{"vsched", "vsync", "vatomic", "vchan", "vbct", "vcurl", "vpcurl"} {
 		files, _ := filepath.Glob(filepath.Join(shim, pkg, "*.go"))
 		for _, f := range files {
 			replace[filepath.Join(repo, "pkg", "verifshim", pkg, filepath.Base(f))] = f
